@@ -21,6 +21,14 @@ def _true_idx(cond):
     return 1 if cond.get("neg") else 0
 
 
+def _hp(f):
+    """name of the function's node_handle parameter (whatever it is called)"""
+    for p in f.get("params", []):
+        if p.get("handle"):
+            return p["name"]
+    raise AnalysisBroken("%s has no node_handle parameter" % f["q"])
+
+
 def _zero_test(cond, must_refs):
     """(index of the arm on which the tested expression == 0) for `0 == X` / `X == 0` / `!X` tests whose X mentions all must_refs"""
     op = cond.get("op")
@@ -42,7 +50,7 @@ def rule_recycle_gate(P):
     R.functions.add(f["inst"])
     guards = set()
     for n in _branches(g, lambda c: True):
-        for refs in (["cache_counts", "p"], ["is_in_cache", "p"]):
+        for refs in (["cache_counts", _hp(f)], ["is_in_cache", _hp(f)]):
             z = _zero_test(n.cond, refs)
             if z is not None:
                 guards.add((n.id, z))
@@ -65,9 +73,9 @@ def rule_recycle_gate(P):
     dead = set()
     unreach = set()
     for n in _branches(g, lambda c: True):
-        if any(c.endswith("node_headers::isDeleted") for c in n.cond["calls"]) and "p" in n.cond["refs"] and n.cond.get("op") == "truth":
+        if any(c.endswith("node_headers::isDeleted") for c in n.cond["calls"]) and _hp(f) in n.cond["refs"] and n.cond.get("op") == "truth":
             dead.add((n.id, _true_idx(n.cond)))
-        for refs in (["incoming_counts", "p"], ["is_reachable", "p"]):
+        for refs in (["incoming_counts", _hp(f)], ["is_reachable", _hp(f)]):
             z = _zero_test(n.cond, refs)
             if z is not None:
                 unreach.add((n.id, z))
@@ -129,7 +137,7 @@ def rule_recycle_gate(P):
                 continue
             pos = set()
             for n in _branches(g, lambda c: True):
-                if any(c.endswith("isPositiveAfterDecrement") for c in n.cond["calls"]) and ctr in n.cond["refs"] and "p" in n.cond["refs"] and n.cond.get("op") == "truth":
+                if any(c.endswith("isPositiveAfterDecrement") for c in n.cond["calls"]) and ctr in n.cond["refs"] and _hp(f) in n.cond["refs"] and n.cond.get("op") == "truth":
                     pos.add((n.id, 1 - _true_idx(n.cond)))   # the arm where the count is NOT positive
             R.paths += 1
             p = g.path(g.entry, lambda n: n in hooks, avoid_edge=lambda n, i: (n.id, i) in pos)
@@ -213,20 +221,25 @@ def rule_dead_before_return(P):
         dead = [n for n in g.nodes if n.kind == "call" and base_name(n.ev["q"]).endswith("ct_tmpl::isDead")]
         R.paths += 2
         iid = "%s%s: a hit is returned only after isDead()" % (f["inst"].replace(M, ""), f["sig"][:50])
-        p = g.path_flags(g.entry, lambda n: n in hits, ["equal", "remove"], avoid=lambda n: n in dead)
+        # local bool flags of the function, whatever they are called: variables assigned the literals true / false somewhere
+        flags = sorted({n.ev["var"] for n in g.nodes if n.kind == "ldef" and n.ev.get("rhs", "").strip() in ("true", "false")})
+        # the variable that receives isDead()'s verdict
+        verdict = sorted({n.ev["var"] for n in g.nodes if n.kind == "ldef" and "isDead" in n.ev.get("rhs", "")})
+        p = g.path_flags(g.entry, lambda n: n in hits, flags, avoid=lambda n: n in dead)
         if dead and not p:
             R.ok(iid, where(f, hits[0].line))
         else:
             R.fail(iid, where(f, hits[0].line), Finding(R.rule, f["file"], bn + f["sig"], "return true", "a cached answer can be returned without the dead-entry scan of its result nodes", hits[0].line, show_path(p) if p else None, inst=f["inst"]))
         # … and only when isDead() said "alive": its result is stored in `remove`, and a hit needs the `!remove` arm
         rem = set()
-        for n in _branches(g, lambda c: c.get("op") == "truth" and c["l"]["refs"] == ["remove"]):
+        for n in _branches(g, lambda c: c.get("op") == "truth" and len(c["l"]["refs"]) == 1 and c["l"]["refs"][0] in verdict):
             rem.add((n.id, 1 - _true_idx(n.cond)))
         iid = "%s%s: a hit is returned only when the entry is not being removed" % (f["inst"].replace(M, ""), f["sig"][:50])
         bad = None
-        stored = [n for n in g.nodes if n.kind == "ldef" and n.ev["var"] == "remove" and "isDead" in n.ev["rhs"]]
+        stored = [n for n in g.nodes if n.kind == "ldef" and n.ev["var"] in verdict and "isDead" in n.ev["rhs"]]
+        other_flags = [x for x in flags if x not in verdict]
         for d in stored:
-            bad = bad or g.path_flags(d, lambda n: n in hits, ["equal"], avoid=lambda n: n.kind == "ldef" and n.ev["var"] == "remove", avoid_edge=lambda n, i: (n.id, i) in rem)
+            bad = bad or g.path_flags(d, lambda n: n in hits, other_flags, avoid=lambda n: n.kind == "ldef" and n.ev["var"] in verdict, avoid_edge=lambda n, i: (n.id, i) in rem)
         if rem and stored and len(stored) == len(dead) and not bad:
             R.ok(iid, where(f, hits[0].line))
         else:
@@ -520,10 +533,13 @@ def rule_schema(P):
             if not finds and not adds:
                 continue
             R.functions.add(f["inst"])
+            # the key / result vectors are whatever locals are handed to findCT / addCT (first and second argument)
+            vecs = {"key": {n.ev["args"][0].strip() for n in finds + adds if n.ev.get("args")},
+                    "res": {n.ev["args"][1].strip() for n in finds + adds if len(n.ev.get("args", [])) > 1}}
             def kind_of(n, vec):
                 if n.kind != "call":
                     return None
-                if n.ev["q"].startswith(M + "ct_item::") and n.ev.get("recv", "").startswith(vec + "["):
+                if n.ev["q"].startswith(M + "ct_item::") and any(n.ev.get("recv", "").startswith(v + "[") for v in vecs[vec]):
                     nm = n.ev["q"].split("::")[-1]
                     if nm == "set":
                         sig = n.ev.get("sig", "")
@@ -531,7 +547,7 @@ def rule_schema(P):
                     return SET_KIND.get(nm)
                 # the item handed to a policy helper (RTYPE::set(res[0], value)): kind chosen by the policy
                 if not n.ev["q"].startswith(M + "ct_item::") and not n.ev["q"].startswith(M + "ct_vector::") and n.ev["q"].split("::")[-1] == "set" \
-                        and n.ev["args"] and n.ev["args"][0].startswith(vec + "["):
+                        and n.ev["args"] and any(n.ev["args"][0].startswith(v + "[") for v in vecs[vec]):
                     return "?"
                 return None
             key_item = lambda n: kind_of(n, "key")
